@@ -38,6 +38,23 @@ func vIdx(seq []int, x int) int { // index of x in seq or -1, as a term
 	return r
 }
 
+// vIdxK: index of the key equivalent to x under the configured key comparator (== for the hash maps).
+func vIdxK(seq []int, x int) int {
+	r := -1
+	for i := len(seq) - 1; i >= 0; i-- {
+		r = v.Ite(vl.Equiv(seq[i], x), i, r)
+	}
+	return r
+}
+
+func vCountK(s []int, x int) int {
+	c := 0
+	for i := 0; i < len(s); i++ {
+		c = c + v.Ite(vl.Equiv(s[i], x), 1, 0)
+	}
+	return c
+}
+
 func vDrop(keys, vals []int, i int) ([]int, []int) {
 	nk := append(append([]int{}, keys[:i]...), keys[i+1:]...)
 	nv := append(append([]int{}, vals[:i]...), vals[i+1:]...)
@@ -70,28 +87,29 @@ func VMapStep(m Map[int, int], keys, vals []int, kind VKind) ([]int, []int) {
 		m.Put(k, x)
 		wk, wv = append([]int{}, keys...), append([]int{}, vals...)
 		if kind.Bidi {
-			if i := v.Split(vIdx(wk, k), -1, len(wk)-1); i >= 0 {
+			if i := v.Split(vIdxK(wk, k), -1, len(wk)-1); i >= 0 {
 				wk, wv = vDrop(wk, wv, i)
 			}
 			if i := v.Split(vIdx(wv, x), -1, len(wv)-1); i >= 0 {
 				wk, wv = vDrop(wk, wv, i)
 			}
 			wk, wv = append(wk, k), append(wv, x)
-		} else if i := v.Split(vIdx(wk, k), -1, len(wk)-1); i >= 0 {
-			wv[i] = x // in place: the key keeps its position (C09)
+		} else if i := v.Split(vIdxK(wk, k), -1, len(wk)-1); i >= 0 {
+			wv[i] = x
+			wk[i] = k // the retained representative of equivalent keys is not specified; keys are compared up to equivalence // in place: the key keeps its position (C09)
 		} else {
 			wk, wv = append(wk, k), append(wv, x)
 		}
 	case VOpRemove:
 		m.Remove(k)
-		if i := v.Split(vIdx(keys, k), -1, len(keys)-1); i >= 0 {
+		if i := v.Split(vIdxK(keys, k), -1, len(keys)-1); i >= 0 {
 			wk, wv = vDrop(keys, vals, i)
 		}
 	case VOpGet:
 		v.BeginOp(true, m)
 		x, found := m.Get(k)
 		v.EndOp()
-		i := vIdx(keys, k)
+		i := vIdxK(keys, k)
 		v.Assert(found == (i >= 0), "C01:get-found")
 		if i >= 0 {
 			v.Assert(x == vals[v.Split(i, 0, len(keys)-1)], "C01:get-value")
@@ -106,7 +124,7 @@ func VMapStep(m Map[int, int], keys, vals []int, kind VKind) ([]int, []int) {
 		i := vIdx(vals, x)
 		v.Assert(found == (i >= 0), "C10:getkey-found")
 		if i >= 0 {
-			v.Assert(kk == keys[v.Split(i, 0, len(keys)-1)], "C10:getkey-key")
+			v.Assert(vl.Equiv(kk, keys[v.Split(i, 0, len(keys)-1)]), "C10:getkey-key")
 		} else {
 			v.Assert(kk == 0, "C10:getkey-zero")
 		}
@@ -129,7 +147,11 @@ func VMapStep(m Map[int, int], keys, vals []int, kind VKind) ([]int, []int) {
 	v.Assert(len(gv) == len(wk), "C01,C10:values-length")
 	vl.Distinct(gk, "C01:key-listed-twice")
 	if kind.Bidi {
-		vl.Distinct(gv, "C10:two-keys-share-a-value")
+		for i := 0; i < len(gv); i++ { // values: plain equality (the value comparator is a total order on ints)
+			for j := i + 1; j < len(gv); j++ {
+				v.Assert(gv[i] != gv[j], "C10:two-keys-share-a-value")
+			}
+		}
 	}
 	if len(gk) == len(wk) && len(gv) == len(wk) {
 		switch {
@@ -140,11 +162,11 @@ func VMapStep(m Map[int, int], keys, vals []int, kind VKind) ([]int, []int) {
 			}
 		default:
 			p := v.Int("probe")
-			v.Assert(vCount(gk, p) == vCount(wk, p), "C01:keys-members")
+			v.Assert(vCountK(gk, p) == vCountK(wk, p), "C01:keys-members")
 			v.Assert(vCount(gv, p) == vCount(wv, p), "C01:values-multiset")
 			if kind.SortedKeys {
 				for i := 1; i < len(gk); i++ {
-					v.Assert(gk[i-1] < gk[i], "C02:keys-ascending")
+					v.Assert(vl.Less(gk[i-1], gk[i]), "C02:keys-ascending")
 				}
 				for i := range gk {
 					x, _ := m.Get(gk[i])
@@ -153,7 +175,7 @@ func VMapStep(m Map[int, int], keys, vals []int, kind VKind) ([]int, []int) {
 			}
 			if kind.Sorted {
 				for i := 1; i < len(gk); i++ {
-					v.Assert(gk[i-1] < gk[i], "C02:keys-ascending")
+					v.Assert(vl.Less(gk[i-1], gk[i]), "C02:keys-ascending")
 					if kind.ValDesc {
 						v.Assert(gv[i-1] > gv[i], "C02:values-ascending-by-the-value-comparator")
 					} else {
@@ -172,7 +194,7 @@ func VMapStep(m Map[int, int], keys, vals []int, kind VKind) ([]int, []int) {
 	// lookups after the step, for arbitrary probes
 	q := v.Int("q")
 	x, found := m.Get(q)
-	i := vIdx(wk, q)
+	i := vIdxK(wk, q)
 	v.Assert(found == (i >= 0), "C01,C10:lookup-after-found")
 	if i >= 0 {
 		v.Assert(x == wv[v.Split(i, 0, len(wk)-1)], "C01,C10:lookup-after-value")
@@ -185,7 +207,7 @@ func VMapStep(m Map[int, int], keys, vals []int, kind VKind) ([]int, []int) {
 		j := vIdx(wv, y)
 		v.Assert(found == (j >= 0), "C10:inverse-lookup-after-found")
 		if j >= 0 {
-			v.Assert(kk == wk[v.Split(j, 0, len(wk)-1)], "C10:inverse-lookup-after-key")
+			v.Assert(vl.Equiv(kk, wk[v.Split(j, 0, len(wk)-1)]), "C10:inverse-lookup-after-key")
 		}
 	}
 	return wk, wv
@@ -208,7 +230,7 @@ func VPairs(bidi bool) ([]int, []int) {
 	for i := 0; i < n; i++ {
 		k, x := v.Int("k"), v.Int("x")
 		for j := 0; j < i; j++ {
-			v.Assume(k != keys[j])
+			v.Assume(!vl.Equiv(k, keys[j]))
 			if bidi {
 				v.Assume(x != vals[j])
 			}
